@@ -4,7 +4,7 @@ Every entry is part of the claim of the checks that use it; the names are printe
 import re
 import z3
 
-from .core import Agg, SymEnum, Ref, SeqV, Opaque, UNIT, FnItem
+from .core import Agg, SymEnum, Ref, SeqV, Opaque, UNIT, FnItem, NativeFrame
 from .mir import MirUnsupported
 
 USED = set()
@@ -278,7 +278,36 @@ def clone(exe, path, callee, args, dst_ty):
 
 @contract(r'<.* as Into<.*>>::into$|<.* as From<.*>>::from$')
 def into(exe, path, callee, args, dst_ty):
+    m = re.match(r'<(f32|f64) as From<(\w+)>>::from$', callee)
+    if m and m.group(2) not in ('f32', 'f64') and isinstance(args[0], z3.ExprRef) and z3.is_int(args[0]) and exe.float_mode == 'real':
+        return [('ret', path, z3.ToReal(args[0]))]      # lossless conversions only (From is not implemented for lossy ones)
     return [('ret', path, args[0])]
+
+
+@contract(r'^(std::option::)?Option::<.*>::map_or::<')
+def option_map_or(exe, path, callee, args, dst_ty):
+    v, default, f = args
+    yes, no = fork_variant(exe, path, v, 'Some')
+    outs = []
+    if yes is not None:
+        x = payload(exe, v, 'Some')
+        if isinstance(f, FnItem):
+            yes.frames.append(NativeFrame(lambda exe, p, r, d: [('ret', p, r)], None))
+            outs.extend(('running', q) if q.status == 'running' else ('diverge', q) for q in exe.invoke(yes, f.name, [x]))
+        else:
+            outs.append(call_closure(exe, yes, f, [x]))
+    if no is not None:
+        outs.append(('ret', no, default))
+    return outs
+
+
+@contract(r'(f32|f64)::<impl (f32|f64)>::fract$')
+def float_fract(exe, path, callee, args, dst_ty):
+    x = args[0]
+    if exe.float_mode != 'real':
+        raise MirUnsupported('fract in fp mode')
+    tr = z3.If(x >= 0, z3.ToReal(z3.ToInt(x)), -z3.ToReal(z3.ToInt(-x)))
+    return [('ret', path, x - tr)]        # exact in binary floating point
 
 
 @contract(r'RangeInclusive::<char>::contains$|RangeInclusive::<char>::contains::<char>$')
